@@ -13,7 +13,12 @@
 (*   universe tags, tags |-> sequence of universe tags (repeats, members   *)
 (*   outside the vocabulary), scs |-> sequence of score patterns, each a   *)
 (*   sequence of quarter ticks 0..4 aligned with tags, ftags / fscs |->    *)
-(*   tags / scs without the members outside the vocabulary]                *)
+(*   tags / scs without the members outside the vocabulary,                *)
+(*   vprov, qprov |-> how the vocabulary tags and the query tags (encode   *)
+(*   arguments, list members) are WRITTEN: "fresh" or "explicit_defaults"  *)
+(*   (every optional field of the term passed explicitly with its default  *)
+(*   value).  Equal tags stay equal however they were written, so Req does *)
+(*   not mention vprov / qprov]                                            *)
 (* A "pair" case:  [kind |-> "pair", cls |-> class number 1..8,            *)
 (*   x, y |-> field-choice vectors, px, py |-> provenances] -- two objects *)
 (*   of one hashable class, each with the history by which it came to hold *)
@@ -124,6 +129,10 @@ LawHashSound(mode, cls, x, y) == ModelEq(cls, x, y) => HashKey(mode, cls, x, 1) 
 (*                dump of a Term re-validates its aliased fields as extra  *)
 (*                attributes and compares unequal: not this property's     *)
 (*                subject, and it would make the pairs trivial)            *)
+(*   explicit_defaults  built by the constructor with every optional field *)
+(*                (of the object and of every Term inside it) passed       *)
+(*                explicitly with its default value: == does not see which *)
+(*                fields were set, so neither may the hash                 *)
 (* Hashing BEFORE the derivation step is the point: anything an object     *)
 (* remembers about its hash travels with copies and survives assignments.  *)
 (***************************************************************************)
@@ -132,7 +141,8 @@ Fresh == Prov("fresh", 0)
 Frozen(cls) == cls = 1                                   \* Term: ConfigDict(frozen=True)
 \* Term's 4th field (an extra attribute) can be added by an update but not removed, so it is never the donor field
 DonorFields(cls) == IF cls = 1 THEN 1..3 ELSE DOMAIN FieldDom[cls]
-Provs(cls) == {Fresh, Prov("deep_copy", 0), Prov("revalidate", 0)} \cup
+Explicit == Prov("explicit_defaults", 0)
+Provs(cls) == {Fresh, Prov("deep_copy", 0), Prov("revalidate", 0), Explicit} \cup
               {Prov(m, f) : m \in {"copy_update"} \cup (IF Frozen(cls) THEN {} ELSE {"assign"}), f \in DonorFields(cls)}
 Donor(cls, x, p) == IF p.f = 0 THEN x ELSE [x EXCEPT ![p.f] = (x[p.f] % FieldDom[cls][p.f]) + 1]
 \* the instance __dict__ (and whatever was memoised in it) is carried by these derivations, not by re-validation
